@@ -56,6 +56,59 @@ pub struct MState {
     pub leaves: Vec<Vec<u8>>,
 }
 
+#[derive(Clone, CanonicalSerialize, CanonicalDeserialize)]
+pub struct MSprs {
+    pub n: usize,
+    pub m: usize,
+    pub d: usize,
+    pub ind_ptr: Vec<usize>,
+    pub col_ind: Vec<usize>,
+    pub val: Vec<Fr>,
+}
+
+#[derive(Clone, CanonicalSerialize, CanonicalDeserialize)]
+pub struct MBrakedown {
+    pub sec_param: usize,
+    pub alpha: (usize, usize),
+    pub beta: (usize, usize),
+    pub rho_inv: (usize, usize),
+    pub base_len: usize,
+    pub n: usize,
+    pub m: usize,
+    pub m_ext: usize,
+    pub a_dims: Vec<(usize, usize, usize)>,
+    pub b_dims: Vec<(usize, usize, usize)>,
+    pub start: Vec<usize>,
+    pub end: Vec<usize>,
+    pub a_mats: Vec<MSprs>,
+    pub b_mats: Vec<MSprs>,
+    pub check_well_formedness: bool,
+}
+
+/// the leading fields of `LigeroPCParams` (the hash parameters that follow are unit values)
+#[derive(Clone, Debug, CanonicalSerialize, CanonicalDeserialize)]
+pub struct MLigeroParams {
+    pub sec_param: usize,
+    pub rho_inv: usize,
+    pub check_well_formedness: bool,
+}
+
+/// Relative distance of the code from the parameters themselves (not from the library's `distance()`):
+/// Reed-Solomon of rate 1/rho_inv: 1 - 1/rho_inv.
+pub fn ligero_ref_distance<T: CanonicalSerialize>(ck: &T) -> Result<(usize, usize), String> {
+    let m: MLigeroParams = mirror(ck)?;
+    if m.rho_inv == 0 {
+        return Err("rho_inv = 0".into());
+    }
+    Ok((m.rho_inv - 1, m.rho_inv))
+}
+
+/// Brakedown: beta / r with r = rho_inv the inverse rate (Golovnev et al., Claim 2).
+pub fn brakedown_ref_distance<T: CanonicalSerialize>(ck: &T) -> Result<(usize, usize), String> {
+    let m: MBrakedown = mirror(ck)?;
+    Ok((m.rho_inv.1 * m.beta.0, m.rho_inv.0 * m.beta.1))
+}
+
 /// Re-interpret a value as another type with the same canonical encoding.
 pub fn mirror<A: CanonicalSerialize, B: CanonicalDeserialize>(a: &A) -> Result<B, String> {
     let bytes = ser(a);
@@ -67,6 +120,13 @@ pub trait Lin: Scheme<F = Fr> {
     type Enc: LinearEncode<Fr, MTConfig, Self::P, ColHasher, LinCodePCParams = Ck<Self>>;
     fn sec_param(ck: &Ck<Self>) -> usize;
     fn distance(ck: &Ck<Self>) -> (usize, usize);
+    /// the code's relative distance derived from the parameter fields by the harness
+    fn ref_distance(ck: &Ck<Self>) -> Result<(usize, usize), String>;
+    /// the distance every harness-side computation uses (falls back to the library's report only if the
+    /// parameters cannot be mirrored)
+    fn dist(ck: &Ck<Self>) -> (usize, usize) {
+        Self::ref_distance(ck).unwrap_or_else(|_| Self::distance(ck))
+    }
     fn wf(ck: &Ck<Self>) -> bool;
     fn dims(ck: &Ck<Self>, len: usize) -> (usize, usize);
     fn point_vec(p: &Self::Pt) -> Vec<Fr>;
@@ -75,7 +135,7 @@ pub trait Lin: Scheme<F = Fr> {
 }
 
 macro_rules! lin_impl {
-    ($s:ty, $enc:ty, $pv:expr) => {
+    ($s:ty, $enc:ty, $pv:expr, $rd:expr) => {
         impl Lin for $s {
             type Enc = $enc;
             fn sec_param(ck: &Ck<Self>) -> usize {
@@ -83,6 +143,9 @@ macro_rules! lin_impl {
             }
             fn distance(ck: &Ck<Self>) -> (usize, usize) {
                 ck.distance()
+            }
+            fn ref_distance(ck: &Ck<Self>) -> Result<(usize, usize), String> {
+                ($rd)(ck)
             }
             fn wf(ck: &Ck<Self>) -> bool {
                 ck.check_well_formedness()
@@ -100,9 +163,9 @@ macro_rules! lin_impl {
     };
 }
 
-lin_impl!(ULigero, ULigeroEnc, |p: &Fr| vec![*p]);
-lin_impl!(MLigero, MLigeroEnc, |p: &Vec<Fr>| p.clone());
-lin_impl!(Brakedown, BrakedownEnc, |p: &Vec<Fr>| p.clone());
+lin_impl!(ULigero, ULigeroEnc, |p: &Fr| vec![*p], ligero_ref_distance);
+lin_impl!(MLigero, MLigeroEnc, |p: &Vec<Fr>| p.clone(), ligero_ref_distance);
+lin_impl!(Brakedown, BrakedownEnc, |p: &Vec<Fr>| p.clone(), brakedown_ref_distance);
 
 pub fn encode<S: Lin>(ck: &Ck<S>, msg: &[Fr]) -> Out<Vec<Fr>> {
     crate::util::guard(|| <S::Enc as LinearEncode<Fr, MTConfig, S::P, ColHasher>>::encode(msg, ck))
@@ -351,7 +414,7 @@ pub fn ref_check<S: Lin>(
         return RefDecision::Reject("fewer proofs than commitments".into());
     }
     let sec = S::sec_param(vk);
-    let dist = S::distance(vk);
+    let dist = S::dist(vk);
     let wf = S::wf(vk);
     for (i, (c, value)) in comms.iter().zip(values).enumerate() {
         let proof = &proofs[i];
@@ -468,7 +531,7 @@ pub fn emulate_prover<S: Lin>(
         let n_ext = cols.len();
         let leaves: Vec<Vec<u8>> = cols.iter().map(|c| col_hash(c)).collect();
         let root = ref_root(&leaves);
-        let t = expected_t::<Fr>(S::sec_param(ck), S::distance(ck), n_ext).ok_or("unusable parameters")?;
+        let t = expected_t::<Fr>(S::sec_param(ck), S::dist(ck), n_ext).ok_or("unusable parameters")?;
         let (_a, b) = tensor::<S>(point, n_cols, n_rows);
         sp.absorb(&ser(&root));
         let row_comb = |coef: &[Fr]| -> Vec<Fr> {
@@ -528,7 +591,7 @@ pub fn moved_point_pass_log2<S: Lin>(
         let (n_rows, n_cols, _rows, ext) = ref_matrices::<S>(&keys.ck, p).ok()?;
         let cols = columns_of(&ext);
         let n_ext = cols.len();
-        let t = expected_t::<Fr>(S::sec_param(&keys.ck), S::distance(&keys.ck), n_ext)?;
+        let t = expected_t::<Fr>(S::sec_param(&keys.ck), S::dist(&keys.ck), n_ext)?;
         let (_a, b) = tensor::<S>(z_new, n_cols, n_rows);
         let w = encode::<S>(&keys.ck, &pr.opening.v).ok()?;
         let good = (0..n_ext).filter(|j| inner(&b, &cols[*j]) == w[*j]).count();
@@ -540,7 +603,7 @@ pub fn moved_point_pass_log2<S: Lin>(
 pub fn transcript_collision_log2<S: Lin>(keys: &Keys<S>, first: &LabeledCommitment<Comm<S>>) -> Option<f64> {
     let mc = comm_mirror::<S>(first).ok()?;
     let n = mc.metadata.n_ext_cols;
-    let t = expected_t::<Fr>(S::sec_param(&keys.ck), S::distance(&keys.ck), n)?;
+    let t = expected_t::<Fr>(S::sec_param(&keys.ck), S::dist(&keys.ck), n)?;
     Some(-(t as f64) * (n as f64).log2())
 }
 
